@@ -124,7 +124,43 @@ class E2Session(SessionBase):
             self._check_partition()
             self._check_usable_bands()
 
-    def do_rebuild(self):
+    def do_cut(self, which):
+        """what-if on the live network: both directions of one link are taken out of the graph (the element objects keep
+        whatever earlier builds left on them), then the OMS list is built again"""
+        if self.discarded or self.world['kind'] != 'net' or getattr(self, 'cut', None) is not None:
+            return {'kind': 'skip'}
+        links = self.world['meta']['links']
+        pairs = sorted({tuple(sorted((l['from'], l['to']))) for l in links})
+        if len(pairs) < 2:
+            return {'kind': 'skip'}
+        a, b = pairs[which % len(pairs)]
+        nodes = {n.uid: n for n in self.network.nodes()}
+        victims = []
+        for oms in self.oms_list:
+            ends = {oms.el_id_list[0], oms.el_id_list[-1]}
+            if ends == {f'roadm {a}', f'roadm {b}'}:
+                victims += [e for e in oms.el_list[1:-1]]
+        if not victims:
+            return {'kind': 'skip'}
+        edges = [(u, v, d) for u, v, d in self.network.edges(data=True) if u in victims or v in victims]
+        self.network.remove_nodes_from(victims)
+        self.cut = (victims, edges)
+        self.st.probes['link_cut_on_live_network'] += 1
+        out = self.do_rebuild(check_same=False)
+        return {'kind': 'cut:' + out['kind']}
+
+    def do_restore(self):
+        if self.discarded or getattr(self, 'cut', None) is None:
+            return {'kind': 'skip'}
+        victims, edges = self.cut
+        self.network.add_nodes_from(victims)
+        for u, v, d in edges:
+            self.network.add_edge(u, v, **d)
+        self.cut = None
+        out = self.do_rebuild(check_same=False)
+        return {'kind': 'restore:' + out['kind']}
+
+    def do_rebuild(self, check_same=True):
         """the OMS list is built again on the same network object (planning() does this on every call): it must work on
         a network that already went through a build and carried assignments, and give the same fresh partition"""
         if self.discarded or self.world['kind'] != 'net':
@@ -137,8 +173,8 @@ class E2Session(SessionBase):
                 raise Violation('C15', 'oms-list-cannot-be-built-again-on-the-same-network', repr(e)[:300])
             self.discarded = 'oms-list-cannot-be-rebuilt'
             return {'kind': 'rebuild-failed'}
-        if 'C15' in self.props and first != [(list(o.el_id_list), list(o.spectrum_bitmap.freq_index))
-                                             for o in self.oms_list]:
+        if 'C15' in self.props and check_same and first != [(list(o.el_id_list), list(o.spectrum_bitmap.freq_index))
+                                                            for o in self.oms_list]:
             raise Violation('C15', 'rebuilt-oms-partition-differs', 'second build_oms_list on the same network differs')
         self._adopt_fresh_oms_list('rebuilt on the same network')
         self.st.probes['oms_list_rebuilt_on_used_network'] += 1
@@ -345,7 +381,8 @@ class E2Session(SessionBase):
             r['id'] = f'q{self.req_counter}'
             rq = PathRequest(request_id=r['id'], source='a', destination='b',
                              bidir=bool(r.get('rpath') or r.get('bidir')),
-                             spacing=r['pcm'] * SLOT, bit_rate=BITRATE, path_bandwidth=r['nwl'] * BITRATE,
+                             spacing=r['pcm'] * SLOT - r.get('off', 0), bit_rate=BITRATE,
+                             path_bandwidth=r['nwl'] * BITRATE,
                              effective_freq_slot=[{'N': n, 'M': m} for n, m in r['slots']])
             if r['preblocked']:
                 rq.blocking_reason = r['preblocked']
@@ -595,6 +632,7 @@ def request_strategy():
         'nwl': st.integers(1, 5),
         'pre': st.integers(0, 9),
         'oog': st.integers(0, 11),
+        'off': st.sampled_from([0, 0, 0, 0, 2.5e9, 10e9, 5e9]),     # spacing off the 12.5 GHz grid (same slot count)
     })
 
 
@@ -644,7 +682,7 @@ def make_machine(prop, tier, cfg):
             if self.swarm['pre'] and r['pre'] < 2:
                 pre = ['NO_PATH', 'MODE_NOT_FEASIBLE'][r['pre']]
             out = {'path': r['path'], 'rpath': r['rpath'], 'slots': slots, 'pcm': r['pcm'], 'nwl': r['nwl'],
-                   'preblocked': pre}
+                   'preblocked': pre, 'off': r['off']}
             if s.world['kind'] == 'net':
                 sites = s.world['meta']['sites']
                 a = sites[r['path'][0] % len(sites)]
@@ -667,6 +705,14 @@ def make_machine(prop, tier, cfg):
         @rule()
         def rebuild(self):
             self.sess.apply('rebuild', {})
+
+        @precondition(lambda self: self.sess is not None and self.sess.world['kind'] == 'net' and prop == 'C15')
+        @rule(which=st.integers(0, 7), restore=st.booleans())
+        def cut_or_restore(self, which, restore):
+            if getattr(self.sess, 'cut', None) is not None:
+                self.sess.apply('restore', {})
+            else:
+                self.sess.apply('cut', {'which': which})
 
         if prop == 'C15':
             @rule(dl=st.integers(-10, 10), dh=st.integers(-10, 10), us=st.lists(
